@@ -9,7 +9,8 @@ single-colour tiles (C05.h), sqlite writes are committed (C05.i).
 Added in round 4: every operation of a dimension-aware cache hands `dimensions` on to the locations
 it computes (C05.o); the sanitiser of dimension values is an injective escape scheme (C05.p); a bulk
 load / store of a per-level cache groups the tiles by level (C05.d); a store replaces the whole row
-(C05.e)."""
+(C05.e).
+Added in round 5: a bulk load of the per-level caches asks every level, no short circuit (C05.q)."""
 import ast
 import re
 
